@@ -100,7 +100,11 @@ class Module(object):
             import copy
             pristine = copy.deepcopy(self.tree)
             try:
+                nc = normalise.substitute_constants(self.tree, self.name, dict(self.aliases), ctx.get('consts', {}),
+                                                    ctx.get('keep', set()))
                 self.tree, self.normalised = normalise.normalise(self.tree, ctx, self.name, dict(self.aliases))
+                if nc:
+                    self.normalised['N11'] = nc
                 compile(self.tree, self.path, 'exec')        # the rewritten tree must still be a valid program
             except Exception as e:                            # a rewrite went wrong: analyse the source as written
                 self.tree, self.normalised = pristine, {'failed: %s' % type(e).__name__: 1}
@@ -162,6 +166,8 @@ class Program(object):
         self.digest = h.hexdigest()[:16]
         from . import normalise
         ctx = normalise.package_context(dict((n, (m.tree, dict(m.aliases), set())) for n, m in self.modules.items()))
+        ctx['consts'] = dict((n, normalise.module_constants(m.tree)) for n, m in self.modules.items())
+        ctx['keep'] = _names_known_to_rules()
         self.normalised = {}
         self.ctx = ctx
         for n, m in self.modules.items():
@@ -370,6 +376,24 @@ class Program(object):
             if base and f.value.id not in func.locals:
                 return '%s.%s' % (base, f.attr) == dotted
         return False
+
+
+_KNOWN = [None]
+
+
+def _names_known_to_rules():
+    """Upper-case identifiers that occur in the rule sources: constants the rules refer to by name keep their name."""
+    if _KNOWN[0] is None:
+        import re
+        names = set()
+        here = os.path.dirname(os.path.abspath(__file__))
+        for d in (here, os.path.join(here, 'rules')):
+            for fn in os.listdir(d):
+                if fn.endswith('.py') and fn != 'normalise.py':
+                    with open(os.path.join(d, fn), encoding='utf-8') as f:
+                        names |= set(re.findall(r'\b[A-Z][A-Z0-9_]{2,}\b', f.read()))
+        _KNOWN[0] = names
+    return _KNOWN[0]
 
 
 def walk_own(node):
